@@ -12,8 +12,23 @@
 (* inside the window (the `win' of ReplayDetector.tla), hence that Check's    *)
 (* answer equals the exact rule.                                              *)
 EXTENDS Integers, FiniteSets
-CONSTANTS W, B, Max, MaskRule
-VARIABLES latest, mask, accepted
+\* (the @type comments are for Apalache: ReplayMaskInd.tla proves MaskIsWindow inductive; TLC ignores them)
+CONSTANTS
+    \* @type: Int;
+    W,
+    \* @type: Int;
+    B,
+    \* @type: Int;
+    Max,
+    \* @type: Str;
+    MaskRule
+VARIABLES
+    \* @type: Int;
+    latest,
+    \* @type: Int -> Bool;
+    mask,
+    \* @type: Set(Int);
+    accepted
 vars == <<latest, mask, accepted>>
 Words == (W + B - 1) \div B
 NBits == IF Words = 0 THEN B ELSE Words * B       \* at least one word is allocated
@@ -24,9 +39,11 @@ Bit(i) == i < W /\ mask[i]                            \* Bit() reports 0 beyond 
 \* Check(seq): the code's answer
 Ok(s) == /\ s <= Max
          /\ IF s <= latest THEN latest - s < W /\ ~Bit(latest - s) ELSE TRUE
+\* @type: (Int -> Bool, Int) => (Int -> Bool);
 Lsh(m, k) == [i \in 0..(NBits - 1) |->
                  LET v == IF i - k >= 0 THEN m[i - k] ELSE FALSE IN
                  IF i >= TopLo + Keep THEN FALSE ELSE v]         \* top word masked by msbMask
+\* @type: (Int -> Bool, Int) => (Int -> Bool);
 SetBit(m, i) == IF i < W THEN [m EXCEPT ![i] = TRUE] ELSE m
 Accept(s) == /\ Ok(s)
              /\ IF s > latest THEN latest' = s /\ mask' = SetBit(Lsh(mask, s - latest), 0)
